@@ -200,9 +200,10 @@ fn unassign_invalid_multi_jobs(
     route_idx: usize,
     synchronized: HashMap<Job, Vec<Arc<Single>>>,
 ) -> Vec<Job> {
+    let goal = new_insertion_ctx.problem.goal.clone();
     let new_route_ctx = new_insertion_ctx.solution.routes.get_mut(route_idx).unwrap();
 
-    synchronized
+    let unassigned = synchronized
         .iter()
         .filter_map(|(job, singles)| match job {
             Job::Multi(multi) => Some((job, multi, singles)),
@@ -215,7 +216,15 @@ fn unassign_invalid_multi_jobs(
             }
 
             unassigned
-        })
+        });
+
+    // NOTE the tour is changed, so its state has to be updated: insertions into the next routes look at the
+    // states of all routes (e.g. shared resources use the intervals of each tour)
+    if !unassigned.is_empty() {
+        goal.accept_route_state(new_route_ctx);
+    }
+
+    unassigned
 }
 
 fn compare_singles(multi: &Multi, singles: &[Arc<Single>]) -> bool {
